@@ -7,7 +7,8 @@ use crate::concurrent::counters::*;
 use crate::utils::errors::AeronError;
 use std::ffi::CString;
 
-static mut NOW: u64 = 0;
+// non-zero, distinctive initialiser: Kani merges all-zero `static mut`s with same-content constants
+static mut NOW: u64 = 0x5a5a_c15c_0000_0001;
 fn clock() -> u64 {
     unsafe { NOW }
 }
